@@ -42,9 +42,19 @@ LAYOUTS = ['', ' ', '\t', '  ', '\n', '\r\n', '\u2028', ' /*c*/ ', '/*c*/', ' //
 
 
 def classify(es5, asttypes, src, lit='/re/'):
-    """-> ('regex'|'division'|'both'|'none', detail) or ('error', msg)"""
+    """-> ('regex'|'division'|'both'|'none', detail) or ('error', msg); a text with comments is also read with comment capture on
+    and the two readings have to agree (how a `/` is read does not depend on whether comments are kept)"""
+    got = classify1(es5, asttypes, src, lit, False)
+    if '/*' in src or '//' in src:
+        kept = classify1(es5, asttypes, src, lit, True)
+        if kept != got:
+            return 'error', 'with comment capture: %s %s, without: %s %s' % (kept[0], kept[1], got[0], got[1])
+    return got
+
+
+def classify1(es5, asttypes, src, lit, with_comments):
     try:
-        t = es5.Parser().parse(src)
+        t = es5.Parser(with_comments=with_comments).parse(src)
     except Exception as e:
         return 'error', '%s: %s' % (type(e).__name__, str(e)[:70])
     regex = div = 0
@@ -151,6 +161,9 @@ def main(run, tier):
     verify_functions(run, cs2, {}, {}, tier=tier)
     import contracts.token as ctok
     verify_functions(run, ctok.build(lexmod), {}, {}, tier=tier)
+    # _token decides about the token get_lexer_token hands it: that is ply's next token, each exactly once, whatever the comment switches
+    import contracts.lexer as clex
+    verify_functions(run, clex.token_bookkeeping(lexmod), {}, {}, tier=tier)
     # constants from the statement
     want_div = {'ID', 'NUMBER', 'STRING', 'REGEX', 'TRUE', 'FALSE', 'NULL', 'THIS', 'PLUSPLUS', 'MINUSMINUS', 'RPAREN', 'RBRACE', 'RBRACKET'}
     for name, got, want in (('const.tokens_that_imply_division', set(lexmod.TOKENS_THAT_IMPLY_DIVISON), want_div),
